@@ -746,6 +746,38 @@ def _subject_parts(a):
     return None, None
 
 
+def _multibyte_test(prog, f, n):
+    """`uc_slen(S) < strlen(S)` (in either order, the count possibly held in a local or handed
+    in as a parameter next to S): the character count of a string compared with its own byte
+    count is the `has a multi-byte character` test, not a unit mix-up"""
+    from ..util import resolve_local
+    sides = [strip_casts(n["l"]), strip_casts(n["r"])]
+    for a, b in (sides, sides[::-1]):
+        if not (is_call(b, "strlen") and strip_casts(b["args"][0])["k"] == "ref"):
+            continue
+        S = strip_casts(b["args"][0])["name"]
+
+        def is_count(g, e, sname, depth=0):
+            e = strip_casts(e)
+            if is_call(e, "uc_slen") and key(strip_casts(e["args"][0])) == sname:
+                return True
+            if e["k"] == "ref" and depth < 2:
+                d_ = resolve_local(g, e)
+                if d_ is not None and d_["id"] != e["id"]:
+                    return is_count(g, d_, sname, depth + 1)
+            return False
+        if is_count(f, a, S):
+            return True
+        pn = [q["name"] for q in f.params]
+        if a["k"] == "ref" and a["name"] in pn and S in pn and not any(
+                lv["k"] == "ref" and lv["name"] in (a["name"], S) for _n, lv, _o, _r in stores(f.body)):
+            sites = [(h, c) for h in prog.funcs.values() for c in h.calls(f.name) if prog.resolve(h, c["fn"]) is f]
+            if sites and all(is_count(h, c["args"][pn.index(a["name"])], key(strip_casts(c["args"][pn.index(S)])))
+                             for h, c in sites):
+                return True
+    return False
+
+
 def matcher_flags(prog):
     """Values of the matcher flags as the code uses them: NOTBOL (tested with the line-start
     anchor in rstr_find), PREV (tested next to `r > s` before the look-behind), and the
@@ -1616,7 +1648,7 @@ def rule_T4(ctx):
         for n, (u1, w1, u2, w2) in conflicts[:3]:
             exc = None
             kk = key(n)
-            if f.name == "ren_position" and "strlen" in kk and n["k"] == "bin" and n["op"] == "<":
+            if n["k"] == "bin" and n["op"] in ("<", ">", "!=", "==") and _multibyte_test(prog, f, n):
                 exc = T4_EXCEPTIONS[("ren_position", "multibyte")]
             if (f.name, "xoff") in T4_EXCEPTIONS and "xoff" in kk + w1 + w2:
                 exc = T4_EXCEPTIONS[(f.name, "xoff")]
